@@ -101,6 +101,8 @@ class Interp:
         for p in names:
             if p == "self":
                 ty = Ty("ref", (u.cls,))
+            elif c.params.get(p) in ("fn", "fn?"):
+                ty = parse_ty(c.params[p])
             else:
                 if p not in c.params:
                     raise Unsupported("%s: parameter %s has no declared type" % (u.qname, p))
@@ -149,8 +151,13 @@ class Interp:
                 for cl in clauses["ensures"]:
                     if cl.witness:
                         binds = dict(binds)
-                        for wv, (wty, wexpr) in cl.witness.items():
-                            binds[wv] = self.coerce(self.spec_val(wexpr, s, frame, old=u.entry), u.T(wty), s, None, frame, spec=True)
+                        try:
+                            for wv, (wty, wexpr) in cl.witness.items():
+                                binds[wv] = self.coerce(self.spec_val(wexpr, s, frame, old=u.entry), u.T(wty), s, None, frame, spec=True)
+                        except Unsupported:
+                            # the witness expression does not exist on this path: the clause can only hold if the path is dead
+                            u.oblige(s, z3.BoolVal(False), "post", cl.label + ".no-witness-on-this-path", cl.props)
+                            continue
                     self.oblige_clause(s, cl, "post", cl.label, frame, old=u.entry, binds=binds)
             elif kind == "raise":
                 if v in rcond:
@@ -382,6 +389,17 @@ class Interp:
             return v
         if a.k == "tuple":
             return v
+        if ty.k in ("int", "real") and ty.opt:            # int? / real?  (None | number)
+            if a.k == "none":
+                return Val(num.opt_dt(ty)[1], ty)
+            if a.k in ("int", "real") and not a.opt:
+                base = Ty(ty.k, ty.a, False)
+                return Val(num.opt_dt(ty)[2](self.coerce(v, base, st, node, frame, spec).t), ty)
+        if a.k in ("int", "real") and a.opt and ty.k in ("int", "real", "float") and not ty.opt:
+            if not spec:
+                self.u.oblige(st, num.opt_dt(a)[4](v.t), "safe", "none-used-as-number", {"C01"},
+                              where=self.u.where(node, frame) if node is not None else None)
+            return self.coerce(Val(num.opt_dt(a)[5](v.t), Ty(a.k, a.a, False)), ty, st, node, frame, spec)
         if ty.k == "real":
             if a.k == "real":
                 return Val(v.t, ty)
